@@ -974,5 +974,88 @@ Section PSC.
         + intros [= <- <-]. exact I.
         + intros [= <- <-]. apply (step_elim a seats (e :: es) I Hlt HE Hnde Hlen).
     Qed.
+
+    Lemma cnt_perm l l' : Permutation l l' -> cnt l = cnt l'.
+    Proof.
+      induction 1 as [|x l l' _ IH|x y l|l l' l'' _ IH1 _ IH2]; [reflexivity| | |congruence].
+      - rewrite !cnt_cons, IH. reflexivity.
+      - rewrite !cnt_cons. destruct (cmem x SS), (cmem y SS); reflexivity.
+    Qed.
+
+    Lemma cwa_le_asum a : alloc_nonneg a -> cwa a <= asum a.
+    Proof.
+      induction 1 as [|[k0 p] a Hp _ IH]; simpl; [lra|]. simpl in Hp. destruct (cwp_bounds p Hp). destruct (inS k0); lra.
+    Qed.
+
+    Lemma totals_keys_some a :
+      flat_map (fun kt : option C * Q => match fst kt with Some c => [c] | None => [] end) (totals a) = keys_some a.
+    Proof.
+      unfold totals, keys_some. induction a as [|[k0 p] a0 IH]; [reflexivity|]. cbn [map flat_map fst]. rewrite IH. reflexivity.
+    Qed.
+
+    (* the elect-all-remaining shortcut seats every continuing member of SS *)
+    Lemma all_psc a seats el : Inv a seats -> next_count cf a n total seats caps = CR_all el ->
+      (Nat.min k (length SS) <= cnt (map fst (add_seats seats el)))%nat.
+    Proof.
+      intros I. unfold next_count. cbv zeta.
+      match goal with |- context [if ?c then CR_all ?av else _] => destruct c; [set (avail := av)|] end.
+      - intros [= <-].
+        assert (Hk : Permutation (map fst avail) (keys_some a)).
+        { unfold avail. set (l := sort_desc Qle_bool (totals a)).
+          assert (Hp : Permutation l (totals a)) by apply sort_desc_perm.
+          assert (H1 : forall l0 : list (option C * Q),
+                    map fst (flat_map (fun kt : option C * Q => match fst kt with
+                                        | Some c => [(c, (dget_or caps c 0 - dget_or seats c 0)%Z)]
+                                        | None => [] end) l0)
+                    = flat_map (fun kt : option C * Q => match fst kt with Some c => [c] | None => [] end) l0).
+          { induction l0 as [|[k0 t] l0 IH]; [reflexivity|]. cbn [flat_map fst]. rewrite map_app, IH. destruct k0; reflexivity. }
+          rewrite H1.
+          rewrite <- (totals_keys_some a). apply Permutation_flat_map, Hp. }
+        rewrite add_seats_keys.
+        + rewrite cnt_app, (cnt_perm _ _ Hk). exact (i_I2 _ _ I).
+        + apply (Permutation_NoDup (Permutation_sym Hk)), keys_some_nodup, (i_nd _ _ I).
+        + intros c Hc. apply (i_disj _ _ I). apply (Permutation_in _ Hk), Hc.
+      - intros H. exfalso. revert H.
+        repeat (match goal with |- context [match ?x with _ => _ end] => destruct x end); discriminate.
+    Qed.
+
+    (* all seats filled: no quota's worth of votes can be left on the coalition's continuing members *)
+    Lemma done_psc a seats : Inv a seats -> zsum (map snd seats) = n -> total < inject_Z (n + 1) * q ->
+      (Nat.min k (length SS) <= cnt (map fst seats))%nat.
+    Proof.
+      intros I Hz Hdroop. destruct I as [I1 I2 I3 I4 I5 I6 I7 I8 I9].
+      destruct (Nat.eq_dec (cnt (keys_some a)) 0) as [H0|H0]; [lia|].
+      assert (Hpos : (0 < cnt (keys_some a))%nat) by lia.
+      destruct (cnt_pos_ex _ Hpos) as (e & He1 & He2).
+      assert (Hex : exists c, In c SS /\ In c (keys_some a)) by (exists e; tauto).
+      specialize (I8 Hex). pose proof (cwa_le_asum a I2) as Hc. rewrite Hz in I6.
+      rewrite inject_Z_plus in Hdroop. change (inject_Z 1) with 1 in Hdroop.
+      assert (Hk : (k <= cnt (map fst seats))%nat).
+      { destruct (le_lt_dec k (cnt (map fst seats))) as [Hl|Hg]; [exact Hl|exfalso].
+        assert (Hzz : (Z.of_nat (cnt (map fst seats)) + 1 <= Z.of_nat k)%Z) by lia.
+        rewrite Zle_Qle, inject_Z_plus in Hzz. change (inject_Z 1) with 1 in Hzz.
+        assert (Hmul : (inject_Z (Z.of_nat (cnt (map fst seats))) + 1) * q <= inject_Z (Z.of_nat k) * q)
+          by (apply Qmult_le_compat_r; [exact Hzz|lra]).
+        assert (Hexp : (inject_Z (Z.of_nat (cnt (map fst seats))) + 1) * q == inject_Z (Z.of_nat (cnt (map fst seats))) * q + q) by ring.
+        assert (Hexp2 : (inject_Z n + 1) * q == inject_Z n * q + q) by ring.
+        lra. }
+      lia.
+    Qed.
+
+    Theorem run_psc fuel : forall a seats acc, Inv a seats -> total < inject_Z (n + 1) * q ->
+      t_stop (run cf fuel a n total seats caps acc) = None ->
+      (Nat.min k (length SS) <= cnt (map fst (t_seats (run cf fuel a n total seats caps acc))))%nat.
+    Proof.
+      induction fuel as [|f IH]; intros a seats acc I Hd; cbn [run].
+      - destruct (zsum (map snd seats) =? n)%Z eqn:E; cbn [t_stop t_seats]; [|discriminate].
+        intros _. apply (done_psc a seats I); [apply Z.eqb_eq, E|exact Hd].
+      - destruct (zsum (map snd seats) =? n)%Z eqn:E; cbn [t_stop t_seats].
+        { intros _. apply (done_psc a seats I); [apply Z.eqb_eq, E|exact Hd]. }
+        destruct (next_count cf a n total seats caps) as [el|a' el|s] eqn:En; cbn [t_stop t_seats]; [| |discriminate].
+        + intros _. exact (all_psc a seats el I En).
+        + pose proof (next_count_psc a seats a' el I En) as I'. destruct el as [|e el'].
+          * destruct (alloc_eqb a' a); cbn [t_stop]; [discriminate|]. apply IH; assumption.
+          * apply IH; assumption.
+    Qed.
   End RUNPSC.
 End PSC.
